@@ -204,6 +204,39 @@ def _is_permutation(f: FuncInfo, c: ast.Call) -> str:
         for lp in [x for x in walk_no_nested(f.node) if isinstance(x, ast.For)]:
             it = lp.iter
             if isinstance(it, ast.Call) and isinstance(it.func, ast.Attribute) and it.func.attr == 'iter' \
+                    and [norm(x) for x in it.args] == [a_t, b_t] and len(lp.body) in (1, 2) and not isinstance(lp.body[0], ast.If):
+                # selection idiom: the token is appended to ONE of the two lists chosen by an expression -- (A, B)[cond] / A if cond else B
+                tv = norm(lp.target)
+
+                def selects(e: ast.AST) -> bool:
+                    if isinstance(e, ast.Subscript) and isinstance(e.value, (ast.Tuple, ast.List)) and len(e.value.elts) == 2:
+                        return {norm(x) for x in e.value.elts} == parts
+                    if isinstance(e, ast.IfExp):
+                        return {norm(e.body), norm(e.orelse)} == parts
+                    return False
+                sel_ok = False
+                last = lp.body[-1]
+                if isinstance(last, ast.Expr) and isinstance(last.value, ast.Call) and isinstance(last.value.func, ast.Attribute) \
+                        and last.value.func.attr == 'append' and len(last.value.args) == 1 and norm(last.value.args[0]) == tv:
+                    recv = last.value.func.value
+                    if len(lp.body) == 1:
+                        sel_ok = selects(recv)
+                    elif isinstance(lp.body[0], ast.Assign) and len(lp.body[0].targets) == 1 and isinstance(recv, ast.Name) \
+                            and norm(lp.body[0].targets[0]) == recv.id:
+                        sel_ok = selects(lp.body[0].value)
+                if sel_ok:
+                    for nm in parts:
+                        inits = [s for s in walk_no_nested(f.node) if isinstance(s, (ast.Assign, ast.AnnAssign))
+                                 and norm(s.targets[0] if isinstance(s, ast.Assign) else s.target) == nm]
+                        if len(inits) != 1 or not (isinstance(inits[0].value, ast.List) and not inits[0].value.elts):
+                            return f'list {nm} is not initialised empty exactly once'
+                        others = [s for s in walk_no_nested(f.node) if isinstance(s, ast.Call) and isinstance(s.func, ast.Attribute)
+                                  and norm(s.func.value) == nm and s.func.attr != 'append']
+                        if others:
+                            return f'list {nm} is modified outside the partition loop'
+                    return ''
+                return 'loop does not append the token to exactly one of the two lists'
+            if isinstance(it, ast.Call) and isinstance(it.func, ast.Attribute) and it.func.attr == 'iter' \
                     and [norm(x) for x in it.args] == [a_t, b_t] and len(lp.body) == 1 and isinstance(lp.body[0], ast.If):
                 br = lp.body[0]
                 tv = norm(lp.target)
